@@ -512,7 +512,7 @@ func (cfg *Config) obtainCert(ctx context.Context, name string, interactive bool
 
 	log := cfg.Logger.Named("obtain")
 
-	name = cfg.transformSubject(ctx, log, name)
+	name = canonicalSubject(cfg.transformSubject(ctx, log, name))
 
 	// if storage has all resources for this certificate, obtain is a no-op
 	if cfg.storageHasCertResourcesAnyIssuer(ctx, name) {
@@ -775,7 +775,7 @@ func (cfg *Config) renewCert(ctx context.Context, name string, force, interactiv
 
 	log := cfg.Logger.Named("renew")
 
-	name = cfg.transformSubject(ctx, log, name)
+	name = canonicalSubject(cfg.transformSubject(ctx, log, name))
 
 	// ensure storage is writeable and readable
 	// TODO: this is not necessary every time; should only perform check once every so often for each storage, which may require some global state...
@@ -1169,6 +1169,18 @@ func (cfg *Config) transformSubject(ctx context.Context, logger *zap.Logger, nam
 			zap.String("transformed", transformedName))
 	}
 	return transformedName
+}
+
+// canonicalSubject returns the one spelling of name (lower-case, trimmed,
+// IDNs in punycode) under which its certificate resources are stored, so
+// that the storage check, the lock and the order of an obtain or renew
+// operation agree for every spelling of the same name.
+func canonicalSubject(name string) string {
+	name = normalizedName(name)
+	if ascii, err := idna.ToASCII(name); err == nil {
+		name = ascii
+	}
+	return name
 }
 
 // checkStorage tests the storage by writing random bytes
